@@ -821,6 +821,9 @@ func inclStream(r *Run) {
 			}
 		}
 	}
+	if r.Shard == 0 {
+		inclSharedAcrossDirs(r)
+	}
 	n := 10000
 	if r.Tier == "thorough" {
 		n = 100000
@@ -847,5 +850,70 @@ func inclStream(r *Run) {
 			r.Nontrivial(cl)
 		}
 		r.Emit(cl, res)
+	}
+}
+
+// inclSharedAcrossDirs: ONE engine renders, in sequence, main templates parsed with paths in different
+// directories that include the same shared file, whose own relative include resolves against the directory
+// of the main template's path ("resolved relative to the directory of the path the template being rendered
+// was parsed with"). Every render must equal the same render on a fresh engine, in every order, on disk and
+// through ParseTemplateAndCache. Implementation only (a history of renders on one engine has no case line here).
+func inclSharedAcrossDirs(r *Run) {
+	d := filepath.Join(workDir(), fmt.Sprintf("incl-shared-%d", os.Getpid()))
+	defer os.RemoveAll(d)
+	files := map[string]string{
+		"card.html":        "[{% include \"label.html\" %}:{{ who }}]",
+		"posts/label.html": "POSTS",
+		"pages/label.html": "PAGES{% assign who = \"p\" %}",
+		"posts/index.html": "{% assign who = \"me\" %}{% include \"../card.html\" %}",
+		"pages/index.html": "{% assign who = \"you\" %}{% include \"../card.html\" %}{% include \"../card.html\" %}",
+		"drafts/index.html": "{% include \"../card.html\" %}",
+	}
+	for _, onDisk := range []bool{true, false} {
+		os.RemoveAll(d)
+		newEngine := func() *liquid.Engine {
+			e := liquid.NewEngine()
+			for name, src := range files {
+				path := filepath.Join(d, name)
+				if onDisk {
+					os.MkdirAll(filepath.Dir(path), 0o755)
+					os.WriteFile(path, []byte(src), 0o644)
+				} else if !strings.HasSuffix(name, "index.html") {
+					e.ParseTemplateAndCache([]byte(src), path, 1)
+				}
+			}
+			return e
+		}
+		render := func(e *liquid.Engine, main string) string {
+			return guard(func() string {
+				t, err := e.ParseTemplateLocation([]byte(files[main]), filepath.Join(d, main), 1)
+				if err != nil {
+					return "err parse " + err.Error()
+				}
+				out, err2 := t.RenderString(map[string]any{})
+				if err2 != nil {
+					return "err render"
+				}
+				return "ok " + out
+			})
+		}
+		orders := [][]string{
+			{"posts/index.html", "pages/index.html", "posts/index.html", "drafts/index.html", "pages/index.html"},
+			{"pages/index.html", "posts/index.html", "drafts/index.html", "posts/index.html"},
+			{"drafts/index.html", "pages/index.html", "posts/index.html"},
+		}
+		want := map[string]string{"posts/index.html": "ok [POSTS:me]", "pages/index.html": "ok [PAGES:you][PAGES:you]", "drafts/index.html": "err render"}
+		for oi, order := range orders {
+			shared := newEngine()
+			for step, main := range order {
+				got := render(shared, main)
+				alone := render(newEngine(), main)
+				r.Count("shared-include-across-dirs")
+				if got != alone || got != want[main] {
+					r.Violate("C14", "include-vs-reference", fmt.Sprintf("incl-shared-across-dirs disk=%v order=%d step=%d %s", onDisk, oi, step, hexField(main)),
+						fmt.Sprintf("%s rendered on an engine that rendered %v before gives %q; on a fresh engine %q; expected %q", main, order[:step], got, alone, want[main]))
+				}
+			}
+		}
 	}
 }
